@@ -84,7 +84,7 @@ def prop_set(draw, kind_hint=None, values=None):
 
 
 @st.composite
-def program(draw, weights=None, min_steps=8, max_steps=30, prefixes=PREFIXES, seed_bare=True, fancy_names=True, cond_rate=4, prop_values=None, restart_rate=None, focus=False, sparse_rate=0, locked_rate=0):
+def program(draw, weights=None, min_steps=8, max_steps=30, prefixes=PREFIXES, seed_bare=True, fancy_names=True, cond_rate=4, prop_values=None, restart_rate=None, focus=False, sparse_rate=0, locked_rate=0, retype=False):
     w = dict(DEFAULT_WEIGHTS)
     if weights:
         w.update(weights)
@@ -191,6 +191,9 @@ def program(draw, weights=None, min_steps=8, max_steps=30, prefixes=PREFIXES, se
             # delete a collection and create one again at the same URL (stale per-path caches)
             slot = draw(st.sampled_from(["c1", "c1", "a1", "c2", "x1"]))
             kind = {"c1": "mkcalendar", "c2": "ext-calendar", "a1": "ext-addressbook", "x1": "plain"}[slot]
+            if retype and draw(st.integers(0, 2)) == 0:
+                # a collection of another type at the same URL
+                kind = draw(st.sampled_from(["mkcalendar", "ext-calendar", "ext-addressbook", "ext-plain", "plain"]))
             steps.append({"op": "DELETE", "fe": fe, "afe": afe, "coll": slot, "name": None, "slash": draw(st.booleans())})
             steps.append({"op": "MKCOL", "fe": draw(FE), "afe": afe, "coll": slot, "kind": kind, "props": [], "slash": draw(st.booleans())})
         elif op == "RACE":
